@@ -2,6 +2,11 @@ import Enc.Model.Thrift
 import Enc.Lemmas.Base
 import Enc.Lemmas.ThriftSkip
 import Enc.Lemmas.ThriftTotal
+import Enc.Lemmas.ThriftMismatch
+import Enc.Lemmas.ThriftDepth
+import Enc.Lemmas.ThriftDeltaStop
+import Enc.Lemmas.ThriftStructEnd
+import Enc.Lemmas.ThriftDepthExact
 /-!
 # C08 — thrift decoding is total, bounded and skips unknown fields
 Property theorems only.
@@ -44,21 +49,27 @@ theorem rLength_bounded (p : Proto) (b r : Bytes) (n : Nat) (h : rLength p b = .
 every well-formed value `v` (explicit decidable predicate `Lemmas.ThriftSkip.WF`: value shape matches the type, integers in
 range, sizes ≤ MaxInt32, struct field ids distinct and in 1..32767, no enum tag on a non-int32 kind), the generic skipper
 run on the wire type of `ty` consumes exactly the encoding of `v` and nothing else, whatever follows — including nested
-structs with delta-encoded ids, compact bool fields that live in the header, lists, sets and maps. -/
+structs with delta-encoded ids, compact bool fields that live in the header, lists, sets and maps. `d` is the nesting
+depth the skipper is called at (`skip(r, t, depth)`); the value's own nesting must fit below the limit `maxDepth`
+(beyond it the skipper answers `"maxDepth"`). -/
 theorem skip_consumes_exactly (p : Proto) (ty : Ty) (v : Val) (h : Lemmas.ThriftSkip.WF ty v = true)
-    (fuel : Nat) (rest : Bytes) (hf : Lemmas.ThriftSkip.fuelOf ty v ≤ fuel) :
-    skip p fuel (typeOf ty) (encode p ty v ++ rest) = .ok ((), rest) :=
-  Lemmas.ThriftSkip.skip_encode p ty v h fuel rest hf
+    (d : Nat) (fuel : Nat) (rest : Bytes) (hd : d + nest ty ≤ Gen.c_thrift_maxDepth)
+    (hf : Lemmas.ThriftSkip.fuelOf ty v ≤ fuel) :
+    skip p d fuel (typeOf ty) (encode p ty v ++ rest) = .ok ((), rest) :=
+  Lemmas.ThriftSkip.skip_encode p ty v h d fuel rest hd hf
+
+/-- non-vacuity: the depth hypothesis is satisfiable -/
+example : 0 + nest (.slice (.int .i32)) ≤ Gen.c_thrift_maxDepth := by decide
 
 /-- … and the struct decoder resumes right after an undeclared field with the target's field values and the set of seen
 ids unchanged ("skipped without affecting the decoded value") -/
-theorem undeclared_field_has_no_effect (p : Proto) (strict : Bool) (B : Nat) (f : FieldRec) (r : List FieldRec)
-    (hg : Lemmas.ThriftSkip.GoodRec p B f) (last : Int) (hl : 0 ≤ last) (hlt : last < f.id)
+theorem undeclared_field_has_no_effect (p : Proto) (strict : Bool) (d : Nat) (B : Nat) (f : FieldRec) (r : List FieldRec)
+    (hg : Lemmas.ThriftSkip.GoodRec p d B f) (last : Int) (hl : 0 ≤ last) (hlt : last < f.id)
     (descs : List FieldDesc) (hnone : findById descs f.id = none) (fuel : Nat) (hf : B ≤ fuel)
     (vs : Vals) (num : Nat) (seen : List Int) (rest : Bytes) :
-    decodeStruct p strict (fuel + 1) descs (emitFields p (f :: r) last ++ rest) vs last num seen
-      = decodeStruct p strict fuel descs (emitFields p r f.id ++ rest) vs f.id (num + 1) seen :=
-  Lemmas.ThriftSkip.decodeStruct_undeclared p strict B f r hg last hl hlt descs hnone fuel hf vs num seen rest
+    decodeStruct p strict d (fuel + 1) descs (emitFields p (f :: r) last ++ rest) vs last num seen
+      = decodeStruct p strict d fuel descs (emitFields p r f.id ++ rest) vs f.id (num + 1) seen :=
+  Lemmas.ThriftSkip.decodeStruct_undeclared p strict d B f r hg last hl hlt descs hnone fuel hf vs num seen rest
 
 /-- non-vacuity: the well-formedness predicate is satisfiable (a list of in-range i32 values; the agent's `#eval` checks a
 struct with bool, list-of-struct, enum, map-of-pointers and set in both protocols) -/
@@ -95,5 +106,171 @@ theorem unmarshal_append_trailing (p : Proto) (strict : Bool) (ty : Ty) (b extra
     (h : unmarshal p strict ty b = .ok v) (hx : extra ≠ []) :
     unmarshal p strict ty (b ++ extra) = .err "trailing" :=
   Lemmas.ThriftTotal.unmarshal_append_trailing p strict ty b extra v h hx
+
+/-! ## a value whose wire type does not match the Go type (fix d1e2b54; proofs in Enc/Lemmas/ThriftMismatch.lean) -/
+
+/-- **A declared field that arrives with the wrong wire type is skipped (non-strict) / rejected (strict).** The analogue of
+`undeclared_field_has_no_effect` for a field the target DOES declare (`findById descs f.id = some fd`) but with another
+thrift type (`f.t ≠ typeOf fd.ty`), holding any well-formed value of the type it announces (`GoodRec`: the skipper
+consumes its body exactly — by `skip_consumes_exactly` every well-formed value of every supported type qualifies, see
+`Lemmas.ThriftSkip.goodRec_of_WF`): in non-strict mode the struct decoder resumes right after the value with the field
+values `vs` unchanged — so the result is the one of the message without that field — and the id recorded as seen (Go sets
+the seen bit before it compares the types: for a `required` field the wrong-typed occurrence counts as present); in
+strict mode the result is a TypeMismatch error. Before the fix the non-strict decoder left the value's bytes in the
+stream and parsed them as field headers. -/
+theorem mismatch_skipped (p : Proto) (d : Nat) (B : Nat) (f : FieldRec) (r : List FieldRec)
+    (hg : Lemmas.ThriftSkip.GoodRec p d B f) (last : Int) (hl : 0 ≤ last) (hlt : last < f.id)
+    (descs : List FieldDesc) (fd : FieldDesc) (hsome : findById descs f.id = some fd) (hmis : f.t ≠ typeOf fd.ty)
+    (fuel : Nat) (hf : B ≤ fuel) (vs : Vals) (num : Nat) (seen : List Int) (rest : Bytes) :
+    decodeStruct p false d (fuel + 1) descs (emitFields p (f :: r) last ++ rest) vs last num seen
+      = decodeStruct p false d fuel descs (emitFields p r f.id ++ rest) vs f.id (num + 1) (f.id :: seen) ∧
+    decodeStruct p true d (fuel + 1) descs (emitFields p (f :: r) last ++ rest) vs last num seen
+      = .err "typeMismatch" :=
+  ⟨Lemmas.ThriftMismatch.decodeStruct_mismatch p d B f r hg last hl hlt descs fd hsome hmis fuel hf vs num seen rest,
+   Lemmas.ThriftMismatch.decodeStruct_mismatch_strict p d B f r hg last hl hlt descs fd hsome hmis fuel hf vs num seen rest⟩
+
+/-- … and the items of a list whose element type does not match the Go slice are skipped (`skipValues`): the input is
+consumed exactly, the target keeps its value; strict mode rejects. The items live one level below the list:
+`d + 1 + nest wt ≤ maxDepth`. -/
+theorem mismatch_list_skipped (p : Proto) (strict : Bool) (d : Nat) (et wt : Ty) (vs : Vals)
+    (hu : Lemmas.ThriftSkip.isU8 et = false) (hwu : Lemmas.ThriftSkip.isU8 wt = false)
+    (hwf : Lemmas.ThriftSkip.WF (.slice wt) (.list vs) = true)
+    (hmis : typeOf et ≠ typeOf wt) (hd : d + 1 + nest wt ≤ Gen.c_thrift_maxDepth)
+    (fuel : Nat) (hf : Lemmas.ThriftSkip.fuelOf (.slice wt) (.list vs) ≤ fuel) (rest : Bytes) (cur : Val) :
+    decode p strict d fuel (.slice et) (encode p (.slice wt) (.list vs) ++ rest) cur
+      = if strict then .err "typeMismatch" else .ok (cur, rest) :=
+  Lemmas.ThriftMismatch.decode_slice_mismatch p strict d et wt vs hu hwu hwf hmis hd fuel hf rest cur
+
+/-- … the entries of a non-empty map whose key or value type does not match the Go map are skipped, the target is the
+empty map Go allocated before the test … -/
+theorem mismatch_map_skipped (p : Proto) (strict : Bool) (d : Nat) (kt vt wk wv : Ty) (x : Val)
+    (hvt : isEmptyStruct vt = false) (hwv : isEmptyStruct wv = false)
+    (hwf : Lemmas.ThriftSkip.WF (.map wk wv) x = true) (hne : Lemmas.ThriftSkip.pairsOfVal x ≠ [])
+    (hmis : typeOf kt ≠ typeOf wk ∨ typeOf vt ≠ typeOf wv)
+    (hd : d + 1 + max (nest wk) (nest wv) ≤ Gen.c_thrift_maxDepth)
+    (fuel : Nat) (hf : Lemmas.ThriftSkip.fuelOf (.map wk wv) x ≤ fuel) (rest : Bytes) (cur : Val) :
+    decode p strict d fuel (.map kt vt) (encode p (.map wk wv) x ++ rest) cur
+      = if strict then .err "typeMismatch" else .ok (.map .nil, rest) :=
+  Lemmas.ThriftMismatch.decode_map_mismatch p strict d kt vt wk wv x hvt hwv hwf hne hmis hd fuel hf rest cur
+
+/-- … and the members of a non-empty set likewise -/
+theorem mismatch_set_skipped (p : Proto) (strict : Bool) (d : Nat) (kt wk : Ty) (x : Val)
+    (hwf : Lemmas.ThriftSkip.WF (.map wk (.struct .nil)) x = true) (hne : Lemmas.ThriftSkip.pairsOfVal x ≠ [])
+    (hmis : typeOf kt ≠ typeOf wk) (hd : d + 1 + nest wk ≤ Gen.c_thrift_maxDepth)
+    (fuel : Nat) (hf : Lemmas.ThriftSkip.fuelOf (.map wk (.struct .nil)) x ≤ fuel) (rest : Bytes) (cur : Val) :
+    decode p strict d fuel (.map kt (.struct .nil)) (encode p (.map wk (.struct .nil)) x ++ rest) cur
+      = if strict then .err "typeMismatch" else .ok (.map .nil, rest) :=
+  Lemmas.ThriftMismatch.decode_set_mismatch p strict d kt wk x hwf hne hmis hd fuel hf rest cur
+
+/-- non-vacuity: two i64 values offered to a `[]int32` -/
+example : Lemmas.ThriftSkip.WF (.slice (.int .i64)) (.list (.cons (.int 5) (.cons (.int (-7)) .nil))) = true ∧
+    typeOf (.int .i32) ≠ typeOf (.int .i64) ∧ 0 + 1 + nest (.int .i64) ≤ Gen.c_thrift_maxDepth := by
+  decide +kernel
+/-- … and a one-entry `map[string]int64` offered to a `map[string]int32` -/
+example : Lemmas.ThriftSkip.WF (.map .str (.int .i64)) (.map (.cons (.str [0x6b]) (.cons (.int 7) .nil))) = true ∧
+    Lemmas.ThriftSkip.pairsOfVal (.map (.cons (.str [0x6b]) (.cons (.int 7) .nil))) ≠ [] ∧
+    (typeOf .str ≠ typeOf .str ∨ typeOf (.int .i32) ≠ typeOf (.int .i64)) := by
+  decide +kernel
+
+/-! ## the nesting limit (fix 9c8d6b4; proofs in Enc/Lemmas/ThriftDepth.lean) -/
+
+/-- **Depth limit, every input.** The depth argument `d` counts the structs, lists, sets and maps the decoder is inside of;
+every recursive call of the model passes `d + 1` when it enters one, and at `d ≥ maxDepth` (10000, regenerated constant)
+a container is refused before a byte of it is read: by the skipper for the four container wire types, by the decoder for
+a declared struct. Hence no run is ever inside more than maxDepth containers — no input can overflow the stack. -/
+theorem depth_limit (p : Proto) (strict : Bool) (d fuel : Nat) (b : Bytes) (hd : Gen.c_thrift_maxDepth ≤ d) :
+    (∀ t, Lemmas.ThriftDepth.isContainer t = true → skip p d (fuel + 1) t b = .err "maxDepth") ∧
+    (∀ fs cur, decode p strict d (fuel + 1) (.struct fs) b cur = .err "maxDepth") :=
+  ⟨fun t ht => Lemmas.ThriftDepth.skip_at_limit p d fuel t b ht hd,
+   fun fs cur => Lemmas.ThriftDepth.decode_struct_at_limit p strict d fuel fs b cur hd⟩
+
+/-- … and a declared slice at `d ≥ maxDepth` never has an element decoded: the only successful outcome is the non-strict
+skipping of a list whose wire type does not match (the skipper then applies the limit to the items) -/
+theorem depth_limit_slice (p : Proto) (strict : Bool) (d fuel : Nat) (et : Ty) (hu : Lemmas.ThriftSkip.isU8 et = false)
+    (b : Bytes) (cur v : Val) (r : Bytes) (hd : Gen.c_thrift_maxDepth ≤ d)
+    (h : decode p strict d (fuel + 1) (.slice et) b cur = .ok (v, r)) :
+    strict = false ∧ v = cur ∧ ∃ lt n r0, rList p b = .ok ((lt, n), r0) ∧
+      typeOf et ≠ (if lt == .true_ then TType.bool else lt) :=
+  Lemmas.ThriftDepth.decode_slice_at_limit p strict d fuel et hu b cur v r hd h
+
+/-- below the limit well-formed values of any nesting are skipped: `skip_consumes_exactly` (hypothesis
+`d + nest ty ≤ maxDepth`). The limit is real and sharp — compact protocol, a struct that does not declare field 2, input
+= header `0x29` (id 2, LIST) followed by nested "one element of type LIST" list headers (`0x19`): after 9999 of them the
+list they announce would be container number 10001 (the struct is number 1, the 9999 lists are 2 … 10000) and `Unmarshal`
+fails whatever follows … -/
+theorem deep_unknown_rejected (strict : Bool) (fs : Fields) (hnone : findById (fieldDescs fs) 2 = none) (t : Bytes) :
+    unmarshal .compact strict (.struct fs) (0x29 :: (List.replicate (Gen.c_thrift_maxDepth - 1) 0x19 ++ t))
+      = .err "maxDepth" :=
+  Lemmas.ThriftDepth.deep_unknown_rejected strict fs hnone t
+
+/-- … while 9998 such headers around an empty list — 9999 nested lists, the innermost is container number 10000 — are
+skipped and the struct is decoded: the limit is sharp -/
+theorem max_depth_unknown_accepted (strict : Bool) (fs : Fields) (hnone : findById (fieldDescs fs) 2 = none)
+    (noreq : (fieldDescs fs).any (fun fd => fd.required) = false) :
+    unmarshal .compact strict (.struct fs)
+      (0x29 :: (List.replicate (Gen.c_thrift_maxDepth - 2) 0x19 ++ [0x09, 0x00])) = .ok (zeroOf (.struct fs)) :=
+  Lemmas.ThriftDepth.max_depth_unknown_accepted strict fs hnone noreq
+
+/-- non-vacuity of the hypotheses (the empty struct; a struct with a tagged field is checked by `#guard` in the Lemmas
+file: the struct-tag parser is `String.splitOn`, which the kernel does not unfold) -/
+example : findById (fieldDescs .nil) 2 = none ∧ (fieldDescs .nil).any (fun fd => fd.required) = false := by decide
+
+/-! ## only the byte 0 is the stop field (fix 7d9da57; proofs in Enc/Lemmas/ThriftDeltaStop.lean) -/
+
+/-- **Compact protocol: a field header byte 0x10 … 0xF0 (id delta ≠ 0, type nibble 0) is rejected**, at any position of a
+struct body (`last`, `num`, fields seen so far are arbitrary), by the struct skipper and by the struct decoder, strict or
+not, whatever follows; and such a byte in front of a struct makes `Unmarshal` fail. Before the fix each of these fifteen
+bytes ended the struct like the byte 0. -/
+theorem delta_stop_rejected (strict : Bool) (d fuel : Nat) (c : UInt8) (h : Lemmas.ThriftDeltaStop.IsDeltaStop c)
+    (rest : Bytes) (last : Int) (num : Nat) :
+    skipStruct .compact d (fuel + 1) (c :: rest) last num = .err "deltaStop" ∧
+    (∀ descs vs seen, decodeStruct .compact strict d (fuel + 1) descs (c :: rest) vs last num seen = .err "deltaStop") ∧
+    (∀ fs, unmarshal .compact strict (.struct fs) (c :: rest) = .err "deltaStop") :=
+  ⟨Lemmas.ThriftDeltaStop.skipStruct_delta_stop d fuel c h rest last num,
+   fun descs vs seen => Lemmas.ThriftDeltaStop.decodeStruct_delta_stop strict d fuel descs c h rest vs last num seen,
+   fun fs => Lemmas.ThriftDeltaStop.unmarshal_delta_stop strict fs c h rest⟩
+
+/-- … and only the byte 0 ends a struct: among the sixteen header bytes with type nibble 0, the struct skipper stops on
+the spot exactly for 0 (and the decoder returns the field values and the seen-set as they are) -/
+theorem only_zero_is_stop (strict : Bool) (d fuel : Nat) (c : UInt8) (hc : c.toNat % 16 = 0) (rest : Bytes) (last : Int)
+    (num : Nat) :
+    (skipStruct .compact d (fuel + 1) (c :: rest) last num = .ok ((), rest) ↔ c = 0) ∧
+    (∀ descs vs seen, decodeStruct .compact strict d (fuel + 1) descs (0 :: rest) vs last num seen = .ok ((vs, seen), rest)) :=
+  ⟨Lemmas.ThriftDeltaStop.skipStruct_ends_iff_zero d fuel c hc rest last num,
+   fun descs vs seen => Lemmas.ThriftDeltaStop.decodeStruct_stop_byte strict d fuel descs rest vs last num seen⟩
+
+/-- **For every input: whatever struct body the compact skipper accepts ends with the byte 0** (any bytes, any nesting,
+any position `last`/`num`, any fuel) — `b = x ++ 0 :: r` where `r` is what is left. Before the fix the bodies `[0x10]` …
+`[0xF0]` were accepted. -/
+theorem struct_ends_with_zero (fuel d : Nat) (b : Bytes) (last : Int) (num : Nat) (r : Bytes)
+    (h : skipStruct .compact d fuel b last num = .ok ((), r)) : ∃ x, b = x ++ 0 :: r :=
+  Lemmas.ThriftDeltaStop.skipStruct_ends_with_zero fuel d b last num r h
+
+/-- non-vacuity: a struct with one i8 field (id 1, value 5), followed by an unrelated byte -/
+example : skipStruct .compact 1 3 [0x13, 5, 0, 0xAA] 0 0 = .ok ((), [0xAA]) := by decide +kernel
+
+example : Lemmas.ThriftDeltaStop.IsDeltaStop 0x10 ∧ Lemmas.ThriftDeltaStop.IsDeltaStop 0xF0 ∧
+    ¬ Lemmas.ThriftDeltaStop.IsDeltaStop 0 ∧ ¬ Lemmas.ThriftDeltaStop.IsDeltaStop 0x15 := by decide
+
+/-- **The skipper's depth limit, exactly.** For a well-formed value `v` (predicate `WF`, as in `skip_consumes_exactly`)
+let `vdepth ty v` be the number of nested containers — lists, sets, maps, structs — actually present in its encoding
+(the nesting of the VALUE: an empty list counts 1, a struct counts 1 + its deepest EMITTED field, scalars and byte
+strings 0; `vdepth ty v ≤ nest ty`). Called at depth `d ≤ maxDepth`, the generic skipper consumes exactly the encoding
+when `d + vdepth ty v ≤ maxDepth`, and otherwise — as soon as one element, key, value or field anywhere inside is nested
+too deep, the ones before it being skipped normally — answers `"maxDepth"`: never a success, never another error. Both
+protocols, any nesting, compact bool fields and delta ids included. -/
+theorem depth_limit_exact (p : Proto) (ty : Ty) (v : Val) (h : Lemmas.ThriftSkip.WF ty v = true)
+    (d fuel : Nat) (rest : Bytes) (hd : d ≤ Gen.c_thrift_maxDepth) (hf : Lemmas.ThriftSkip.fuelOf ty v ≤ fuel) :
+    skip p d fuel (typeOf ty) (encode p ty v ++ rest) =
+      if d + Lemmas.ThriftDepthExact.vdepth ty v ≤ Gen.c_thrift_maxDepth then .ok ((), rest) else .err "maxDepth" :=
+  Lemmas.ThriftDepthExact.skip_exact p ty v h d fuel rest hd hf
+
+/-- non-vacuity: `[][]int32{{5}, {}}` is well-formed and nests two containers, so it is skipped at depth 9998 and
+rejected at depth 9999 (`maxDepth` = 10000) -/
+example : Lemmas.ThriftSkip.WF (.slice (.slice (.int .i32)))
+      (.list (.cons (.list (.cons (.int 5) .nil)) (.cons (.list .nil) .nil))) = true ∧
+    Lemmas.ThriftDepthExact.vdepth (.slice (.slice (.int .i32)))
+      (.list (.cons (.list (.cons (.int 5) .nil)) (.cons (.list .nil) .nil))) = 2 ∧
+    9998 + 2 ≤ Gen.c_thrift_maxDepth ∧ ¬ (9999 + 2 ≤ Gen.c_thrift_maxDepth) := by decide +kernel
 
 end Enc.Props.C08
